@@ -553,6 +553,65 @@ def located_leg(report, max_len):
                     break
 
 
+@dataclass
+class RNodeC:
+    value: int
+    next: Optional["RNodeC"] = None
+
+
+@dataclass
+class ROuterC:
+    node: RNodeC
+
+
+def _times10(data):
+    return data if data is None else {**data, "value": data["value"] * 10}
+
+
+def chained_located_leg(report, max_len):
+    """a CHAINED loader bound to one location of a recursive model (P[ROuterC].node.next): all histories of requests for the inner
+    model alone / the outer model, then the probes compared with a fresh equal retort"""
+    from adaptix import Chain
+
+    def make():
+        env.reset_process_caches()
+        return Retort(recipe=[loader(P[ROuterC].node.next, _times10, Chain.FIRST)])
+    doc = {"node": {"value": 1, "next": {"value": 2, "next": {"value": 3, "next": None}}}}
+    tps = {"RNodeC": RNodeC, "ROuterC": ROuterC}
+    data = {"RNodeC": doc["node"], "ROuterC": doc}
+
+    def probes(r):
+        return {name: outcome(r.load, copy.deepcopy(data[name]), tp) for name, tp in tps.items()}
+    want = {}
+    for name in tps:
+        want[name] = probes(make())[name]
+    ops = [("load", "RNodeC"), ("get_loader", "RNodeC"), ("load", "ROuterC"), ("get_dumper", "RNodeC")]
+    for n in range(1, max_len + 1):
+        for hist in itertools.product(ops, repeat=n):
+            r = make()
+            for op in hist:
+                try:
+                    if op[0] == "load":
+                        r.load(copy.deepcopy(data[op[1]]), tps[op[1]])
+                    elif op[0] == "get_loader":
+                        r.get_loader(tps[op[1]])
+                    else:
+                        r.get_dumper(tps[op[1]])
+                except Exception:  # noqa: BLE001, S110
+                    pass
+            got = probes(r)
+            report.count("traces_validated_against_impl", 1)
+            report.case(("chained_located", hist), nontrivial=True, sample={"leg": "chained_located", "history": [list(o) for o in hist]})
+            for key, g in got.items():
+                report.evaluations += 1
+                if g != want[key]:
+                    report.violation({"check": "C11", "kind": "chained_located_recursive"},
+                                     f"recipe [loader(P[ROuterC].node.next, times10, Chain.FIRST)]: after history {[list(o) for o in hist]} "
+                                     f"load(.., {key}) gives {str(g)[:130]} but a fresh equal retort gives {str(want[key])[:130]}",
+                                     {"leg": "chained_located", "history": [list(o) for o in hist], "probe": key})
+                    break
+
+
 _CRASH_SRC = """
 from dataclasses import dataclass, field
 from typing import List, Optional, Dict
@@ -701,6 +760,7 @@ def run(tier):
     report = Report()
     located_leg(report, 2 if tier == "quick" else 3)
     crashing_leg(report, 2 if tier == "quick" else 3)
+    chained_located_leg(report, 2 if tier == "quick" else 3)
     constructor_recipe_leg(report)
     ops = operations()
     if tier == "quick":
@@ -739,6 +799,11 @@ def replay(case):
     report = Report()
     if case.get("leg") == "constructor_recipe":
         constructor_recipe_leg(report)
+        for v in report.violations.values():
+            return v["what"]
+        return None
+    if case.get("leg") == "chained_located":
+        chained_located_leg(report, len(case["history"]))
         for v in report.violations.values():
             return v["what"]
         return None
